@@ -248,6 +248,9 @@ def run(repo, res, tier):
     warn_rules(repo, res)
     common.run_traversals(repo, res, only={"check::specialize_nonterminals", "check::resolve_nonterminals", "check::do_get_nonterm_refs"}, rp=False)
     RPL.from_grammar_order(repo, res)
+    # which definitions are in the map the Unused set is initialised from: the exemptions of from_grammar are the listed ones (shared with C08 / C11)
+    from vlib import rules_skips as SK, tables
+    SK.skips_rule(repo, res, tables.load("skips")["row"], only={"check::ValidGrammar::from_grammar"})
     res.floor("BOOK", res.count("BOOK"), 7)  # 13 + definitions-map identity
     res.floor("WARN", res.count("WARN"), 5)
     res.floor("TC", res.count("TC"), 11)
